@@ -10,6 +10,9 @@ from harness.indep import bp7
 from harness.drivers.udpcl_world import UdpclWorld, SENDER, dig
 
 
+UDP_MAX = 65507
+
+
 class Hang(BaseException):
     pass
 
@@ -106,6 +109,10 @@ def executions(tier, seed):
             if (slack * 40) < n:
                 slack = max(slack, n // 25)
             for mtu in (base + slack, n, n + 1, None):
+                # a UDP datagram carries at most 65507 octets (IPv4): larger "MTUs" or unsegmented bundles are
+                # not something the network under the agent can be asked to do
+                if (mtu is None or mtu >= n) and n > UDP_MAX:
+                    mtu = UDP_MAX - rnd.choice([0, 1, 300])
                 cases.append({'lengths': [n], 'mtu': mtu, 'salt': len(cases), 'kind': 'sizes'})
     out = []
     for c in cases:
